@@ -104,6 +104,12 @@ def path_specs(strlen):
         yield ['ipath', 'Foo', [['B', v1], ['a', v2]], None, 'h']
     for v in REDUCED:
         yield ['ipath', 'Foo', [['c', v], ['B', ['s', 'x,y']], ['a', v]], 'a', None]
+        # several keys, some with names that start with a non-ASCII letter (they sort after the
+        # ASCII names, so they are never the first keybinding of the printed URI)
+        yield ['ipath', 'Foo', [['Name', ['s', 'dev1']], ['Änd', v]], 'a', None]
+        yield ['ipath', 'Foo', [['Id', ['i', None, 1]], ['Über', ['s', 'a,b=1']], ['Zone', v]], None, 'h']
+        yield ['ipath', 'Foo', [['Ünï', v], ['ßx', v], ['_u', v]], 'a', None]
+        yield ['ipath', 'Foo', [['r', ['ipath', 'In', [['k', v], ['Änd', ['s', 'x']]], 'n', None]]], 'a', None]
     # (4) nested references, depth 1..3, special characters at every level
     for s1 in INNER_STR:
         inner1 = ['ipath', 'In1', [['k', ['s', s1]]], None, None]
@@ -561,8 +567,10 @@ def replay(case, tier):
         check_roundtrip(case['spec'], acc, minimize=False)
         # keep only the violation of the recorded format (replay is of one case)
         if 'fmt' in case:
+            # (one signature covers all formats in which the case fails; the accumulator keeps one
+            # witness per signature, not necessarily the one of the recorded format)
             acc.violations = {k: v for k, v in acc.violations.items()
-                              if v['case'].get('fmt') == case['fmt']}
+                              if v['case'].get('fmt') == case['fmt']} or acc.violations
     elif case['check'] == 'canonical':
         check_canonical(case['spec'], acc)
         acc.violations = {k: v for k, v in acc.violations.items()
